@@ -6,10 +6,11 @@
 package main
 
 import (
-	"github.com/git-lfs/git-lfs/v3/tq"
 	"crypto/tls"
 	"encoding/base64"
 	"fmt"
+	"github.com/git-lfs/git-lfs/v3/tq"
+	"io"
 	"net"
 	"net/http"
 	"net/http/httptest"
@@ -128,6 +129,8 @@ func (w *rdWorld) handler(l int) http.Handler {
 			}
 			rw.Header().Set("Location", loc)
 			rw.WriteHeader(n.Status)
+		case "fail500":
+			rw.WriteHeader(500)
 		default:
 			rw.Header().Set("Content-Type", "application/vnd.git-lfs+json")
 			rw.WriteHeader(200)
@@ -376,6 +379,21 @@ func (w *rdWorld) exec(cs *rdCase, client *lfsapi.Client, helper *rdHelper) (tra
 			name := []string{"Authorization", "authorization", "AUTHORIZATION", "aUTHORIZATIOn"}[cs.ID%4]
 			rel := &tq.Action{Href: apiURL + "/obj", Header: map[string]string{name: "Basic " + base64.StdEncoding.EncodeToString([]byte("u|"+strings.ReplaceAll(w.label(start.L), ":", "~")+":pw"))}}
 			res, err = tq.VerifStorageRequest(client, "origin", tq.Download, "GET", rel, strings.Repeat("ab", 32), true)
+		case "resend":
+			// the SAME request object submitted again after a failure that is not an authentication error, as
+			// tq.verifyUpload does (lfs.transfer.maxverifies): what an earlier submission and its redirects left on
+			// the request must not travel with the next one
+			req, _ := http.NewRequest("POST", apiURL+"/obj", strings.NewReader("{}"))
+			for k := 0; k < 3; k++ {
+				if res != nil && res.Body != nil {
+					res.Body.Close()
+				}
+				req.Body = io.NopCloser(strings.NewReader("{}"))
+				res, err = client.DoWithAuth("origin", client.Endpoints.AccessFor(cfgURL), req)
+				if err == nil && res != nil && res.StatusCode < 300 {
+					break
+				}
+			}
 		default:
 			req, _ := http.NewRequest("GET", apiURL+"/obj", nil)
 			res, err = client.DoWithAuth("origin", client.Endpoints.AccessFor(cfgURL), req)
@@ -457,51 +475,51 @@ func fmtTrace(w *rdWorld, tr []rdSeen) string {
 
 func genRdCase(r *Rng, w *rdWorld) *rdCase {
 	nl := len(w.ls)
-		cs := &rdCase{Entry: Pick(r, []string{"api", "api", "header", "withauth"}), Access: Pick(r, []string{"none", "basic", "basic"}), Creds: r.Chance(80)}
-		if cs.Entry != "header" && r.Chance(30) {
-			cs.Source = "userinfo"
+	cs := &rdCase{Entry: Pick(r, []string{"api", "api", "header", "withauth"}), Access: Pick(r, []string{"none", "basic", "basic"}), Creds: r.Chance(80)}
+	if cs.Entry != "header" && r.Chance(30) {
+		cs.Source = "userinfo"
+	}
+	depth := Pick(r, []int{0, 1, 1, 1, 2, 2, 2, 3, 4})
+	if r.Chance(8) {
+		depth = 5 + r.Intn(3)
+	}
+	for d := 0; d <= depth; d++ {
+		nd := rdNode{L: r.Intn(nl), Kind: "redirect", Status: Pick(r, []int{301, 302, 303, 307, 308}), To: d + 1, Loc: "abs"}
+		if d > 0 && r.Chance(35) {
+			nd.L = cs.Nodes[d-1].L // same listener as the previous hop
 		}
-		depth := Pick(r, []int{0, 1, 1, 1, 2, 2, 2, 3, 4})
-		if r.Chance(8) {
-			depth = 5 + r.Intn(3)
+		if d == depth {
+			nd.Kind = "final"
 		}
-		for d := 0; d <= depth; d++ {
-			nd := rdNode{L: r.Intn(nl), Kind: "redirect", Status: Pick(r, []int{301, 302, 303, 307, 308}), To: d + 1, Loc: "abs"}
-			if d > 0 && r.Chance(35) {
-				nd.L = cs.Nodes[d-1].L // same listener as the previous hop
-			}
-			if d == depth {
-				nd.Kind = "final"
-			}
-			if r.Chance(25) {
-				nd.Then = nd.Kind
-				nd.Kind = "needauth"
-				if !cs.Creds && cs.Entry != "header" {
-					nd.Kind = nd.Then // without credentials a 401 just ends the exchange; keep some of those
-					if r.Chance(30) {
-						nd.Kind = "needauth"
-					}
+		if r.Chance(25) {
+			nd.Then = nd.Kind
+			nd.Kind = "needauth"
+			if !cs.Creds && cs.Entry != "header" {
+				nd.Kind = nd.Then // without credentials a 401 just ends the exchange; keep some of those
+				if r.Chance(30) {
+					nd.Kind = "needauth"
 				}
 			}
-			cs.Nodes = append(cs.Nodes, nd)
 		}
-		for d := 0; d < depth; d++ {
-			if cs.Nodes[d].L == cs.Nodes[d+1].L && r.Chance(40) {
-				cs.Nodes[d].Loc = "rel"
-			}
-			if r.Chance(3) {
-				cs.Nodes[d].Loc = "bad"
-			}
-			if cs.Nodes[d].Loc == "abs" && w.ls[cs.Nodes[d].L].Scheme == w.ls[cs.Nodes[d+1].L].Scheme && r.Chance(30) {
-				cs.Nodes[d].Loc = "net" // `Location: //host:port/path` — not absolute, yet it may leave the host
-			}
+		cs.Nodes = append(cs.Nodes, nd)
+	}
+	for d := 0; d < depth; d++ {
+		if cs.Nodes[d].L == cs.Nodes[d+1].L && r.Chance(40) {
+			cs.Nodes[d].Loc = "rel"
 		}
-		if r.Chance(8) && depth > 0 { // a loop
-			cs.Nodes[depth].Kind = "redirect"
-			cs.Nodes[depth].To = r.Intn(depth + 1)
-			cs.Nodes[depth].Status = 307
-			cs.Nodes[depth].Loc = "abs"
+		if r.Chance(3) {
+			cs.Nodes[d].Loc = "bad"
 		}
+		if cs.Nodes[d].Loc == "abs" && w.ls[cs.Nodes[d].L].Scheme == w.ls[cs.Nodes[d+1].L].Scheme && r.Chance(30) {
+			cs.Nodes[d].Loc = "net" // `Location: //host:port/path` — not absolute, yet it may leave the host
+		}
+	}
+	if r.Chance(8) && depth > 0 { // a loop
+		cs.Nodes[depth].Kind = "redirect"
+		cs.Nodes[depth].To = r.Intn(depth + 1)
+		cs.Nodes[depth].Status = 307
+		cs.Nodes[depth].Loc = "abs"
+	}
 	return cs
 }
 
@@ -600,7 +618,62 @@ func c10(c *Ctx) {
 	if c.Replay == "" {
 		c10Sessions(c, r, w, len(cases)+10)
 		c10Cache(c, r)
+		c10Resend(c, r, w, len(cases)+100000)
 	}
+}
+
+// c10Resend: one request object submitted up to three times (entry "resend"), over redirect graphs whose later
+// hops fail: every Authorization value a listener receives — on the first submission or a later one — was
+// obtained for that listener's place.
+func c10Resend(c *Ctx, r *Rng, w *rdWorld, firstID int) {
+	n := c.N(120, 2500)
+	var cases []*rdCase
+	for i := 0; i < n; i++ {
+		cs := genRdCase(r, w)
+		cs.Source, cs.Entry, cs.Access, cs.Creds = "", "resend", "basic", true
+		if r.Chance(60) && len(w.ls) > 1 {
+			// directed: the start answers with a redirect to ANOTHER place, which fails with a server error
+			a := r.Intn(len(w.ls))
+			b := r.Intn(len(w.ls))
+			for tries := 0; b == a && tries < 8; tries++ {
+				b = r.Intn(len(w.ls))
+			}
+			cs.Nodes = []rdNode{{L: a, Kind: "redirect", Status: Pick(r, []int{307, 308, 301}), To: 1, Loc: "abs"}, {L: b, Kind: "fail500", Loc: "abs"}}
+		}
+		cs.ID = firstID + i
+		cases = append(cases, cs)
+	}
+	var wg sync.WaitGroup
+	sem := make(chan struct{}, 12)
+	for _, cs := range cases {
+		wg.Add(1)
+		sem <- struct{}{}
+		go func(cs *rdCase) {
+			defer wg.Done()
+			defer func() { <-sem }()
+			traces, _, tos := w.runSession([]*rdCase{cs})
+			enc := "C10 resend " + cs.encode()
+			c.R.Eval(enc, len(traces[0]) > 1)
+			c.R.Count("resend")
+			if tos[0] {
+				return
+			}
+			for _, sn := range traces[0] {
+				if sn.Auth == "" {
+					continue
+				}
+				if strings.HasPrefix(sn.Auth, "raw:") {
+					c.R.Add(Finding{Kind: "oracle", What: "a server received an Authorization value the harness never issued (request submitted again)", Case: enc, Impl: clip(fmtTrace(w, traces[0]), 600)})
+					break
+				}
+				if effPlace(sn.Auth) != effPlace(w.label(sn.L)) {
+					c.R.Add(Finding{Kind: "oracle", What: fmt.Sprintf("an Authorization value obtained for %s was sent to %s when the same request was submitted again", effPlace(sn.Auth), effPlace(w.label(sn.L))), Case: enc, Impl: clip(fmtTrace(w, traces[0]), 600)})
+					break
+				}
+			}
+		}(cs)
+	}
+	wg.Wait()
 }
 
 // c10Sessions: the credential source "cache". A git-lfs command keeps ONE client, whose in-process
